@@ -3,6 +3,9 @@ import AkVerif.Lemmas.LLSession
 import AkVerif.Lemmas.LLExpand3
 import AkVerif.Lemmas.LLTokens
 import AkVerif.Lemmas.LLTmpl
+import AkVerif.Lemmas.LLCtorN
+import AkVerif.Lemmas.LLSeqFlat
+import AkVerif.Lemmas.LLTmplC02
 /-!
 # C01 — every parse result is a valid derivation of the user's grammar
 
@@ -116,18 +119,73 @@ this way is what the call sequences of the correspondence test), `LL.constructG_
 templates is `construct`). -/
 
 /-- **The property for dictionaries with production templates** (`ProdSequence`, `ListProds`, `MapProds`;
-the productions a template generates enter the model as data `T`, their derivation is C05's subject): the
+the productions a template generates enter the model as data `T`, their derivation is C05's subject;
+`constructGN nonull T` is the constructor the driver executes: `constructG T` plus the templates' own
+`verify_grammar` stage, `nonull` = item symbols of the delimiter-less list templates): the
 returned tree is a derivation of the expanded dictionary.  `PlainNames`: no name of the dictionary has the shape
 of a factorisation helper (`X__Snn`) — automatic for names without `__`, a decidable condition on the generated
-names (`S__ELEMENT`, `L__TAIL`, … satisfy it). -/
-theorem parse_valid_templates (T : Tmpl) (inp : CtorIn) (P : Parser) (hP : constructG T inp = .ok P)
+names (`S__ELEMENT`, `L__TAIL`, … satisfy it).  The tree is the *un-flattened* one: a `ProdSequence` symbol `S` is
+the right-recursive chain `S → S__ELEMENT S | ()`; see `seq_flatten_yield` for what the real code returns. -/
+theorem parse_valid_templates (nonull : List (List Char)) (T : Tmpl) (inp : CtorIn) (P : Parser)
+    (hP : constructGN nonull T inp = .ok P)
     (hpl : PlainNames inp.prods) (hstart : inp.start ∈ inp.prods.map (·.1))
     (raw : List (List Char × List Char))
     (hEnd : ∀ tok ∈ (P.tokens raw).dropLast, tok.name ≠ endSym)
     (fuel : Nat) (t : Tree Sym) (h : P.parse raw fuel = .ok t) :
     t.name = P.start ∧ Derives P.terminals P.userProds t ∧ NoHelper P.suffix t ∧
       t.yield = (P.tokens raw).dropLast :=
-  parse_valid_G hP hpl hstart raw hEnd fuel t h
+  parse_valid_G (constructGN_ok hP) hpl hstart raw hEnd fuel t h
+
+/-- **`parse(text, start_symbol_name=s)` on a dictionary with templates**, `s` any key of `productions` (a template
+key included): the tree is rooted at `s` and is a derivation of the expanded dictionary from `s`. -/
+theorem parse_from_valid_templates (nonull : List (List Char)) (T : Tmpl) (inp : CtorIn) (P : Parser)
+    (hP : constructGN nonull T inp = .ok P) (hpl : PlainNames inp.prods) (s : List Char)
+    (hs : s ∈ inp.prods.map (·.1)) (raw : List (List Char × List Char))
+    (hEnd : ∀ tok ∈ (P.tokens raw).dropLast, tok.name ≠ endSym)
+    (fuel : Nat) (t : Tree Sym) (h : P.parseFrom s raw fuel = .ok t) :
+    t.name = parseSym s ∧ Derives P.terminals P.userProds t ∧ NoHelper P.suffix t ∧
+      t.yield = (P.tokens raw).dropLast :=
+  parseFrom_sound_G (constructG_built (constructGN_ok hP)) hpl s hs raw hEnd fuel t h
+
+/-- **Flattened `ProdSequence` nodes lose nothing.**  The real `parse` returns the node of a `ProdSequence` symbol
+with the list of the matched members as its value (`_process_seq_telement`); the model returns the chain and the
+driver prints it flattened (`Drv.showTree`: `[S member member …]`, members taken out of the chain by `Drv.seqChain`).
+`LL.flatF seqs fuel t` is that flattening as a tree (the traversal of `Drv.showTreeF`, `none` exactly where the
+driver would print its fallback `?`).  For every derivation tree `t` of the dictionary (what `parse` returns, by
+`parse_valid_templates`) with fewer than 10⁷ nodes, when the symbols named in `seqs` have the productions a
+`ProdSequence` generates (`SeqOK`: `S → E S | ()`, `E` a non-terminal with one-symbol productions):
+the flattening succeeds at every sequence node of the tree (no fallback), keeps the root, **keeps the yield — the
+leaves with their values, in order** — and what the driver prints is the plain rendering of the flattened tree. -/
+theorem seq_flatten_yield (terms : List Sym) (U : Prods Sym) (seqs : List (List Char))
+    (hS : SeqOK terms U seqs) (t : Tree Sym) (hd : Derives terms U t) (hn : t.nodes < 10000000) :
+    ∃ t', flatF seqs 10000000 t = some t' ∧ t'.name = t.name ∧ t'.yield = t.yield ∧
+      Drv.showTree seqs t = showPlain seqs 10000000 t' :=
+  showTree_derives hS t hd hn
+
+/-! Non-vacuity of `SeqOK` and of the flattening: `S = ProdSequence(a, b)`, i.e. `S → S__ELEMENT S | ()`,
+`S__ELEMENT → a | b`; on `a b a` the model's tree is a three-link chain, the flattened tree is `[S a b a]` with the
+same three leaves. -/
+def seqInp : CtorIn :=
+  { groups := ["SPACE".toList, "a".toList, "b".toList], syn := [], kw := [], skip := none,
+    start := "S".toList,
+    prods := [("S".toList, [["S__ELEMENT".toList, "S".toList], []]),
+              ("S__ELEMENT".toList, [["a".toList], ["b".toList]])],
+    smart := true }
+
+def seqT : Tmpl := ⟨["S".toList], ["S__ELEMENT".toList]⟩
+
+example : (match constructGN [] seqT seqInp with
+    | .ok P =>
+      decide (SeqOK P.terminals P.userProds ["S".toList]) && decide (PlainNames seqInp.prods) &&
+      (match P.parse [("a".toList, "a".toList), ("b".toList, "b".toList), ("a".toList, "a".toList)] 1000 with
+       | .ok t =>
+         (match flatF ["S".toList] 100 t with
+          | some t' => decide (t'.children.map Tree.name = ["a", "b", "a"].map Sym.user) &&
+                       decide (t'.yield.map (·.name) = t.yield.map (·.name)) &&
+                       decide (t.children.length = 2)
+          | none => false)
+       | .error _ => false)
+    | .error _ => false) = true := by decide +kernel
 
 /-! Non-vacuity: the nested-common-prefix grammar `A → x y z | x y | x` (start `A`), both
 `smart_factorization` values, input `x y`: the constructor succeeds and `parse` returns a tree
